@@ -157,6 +157,10 @@ def rules(ctx):
     # (class-level defaults, the options dictionary every job receives) makes a subject's estimate depend on the subjects handled before
     from .c13 import r5_shared_defaults
     r5_shared_defaults(ctx, rid="C07.R5")
+    # sampling-based personalisation: which draws are kept is decided by the iteration count alone - a test on the (cohort-wide) state
+    # would make one subject's estimate depend on the other subjects' chains (same rule as C17.R2)
+    from .c17 import r2_burn_in
+    r2_burn_in(ctx, rid="C07.R6", title="draws are kept according to the iteration count only (never according to the cohort's state)")
     ctx.trust("joblib.Parallel preserves the order of its generator and runs each call on the arguments given")
     ctx.assume("population tensors broadcast along trailing axes (never aligned with the individual axis by coincidence)")
 
